@@ -512,6 +512,23 @@ func eqGen(g *G, tier string) []M {
 				ops = append(ops, M{"op": "equalNode", "n": base, "m": other, "kind": "perturbed"})
 				break
 			}
+			if g.Chance(0.1) {
+				// a map entry whose value is empty is an entry: the node with it differs from the node without
+				at, _ := base["a"].(M)
+				if at == nil {
+					at = M{}
+					base["a"] = at
+				}
+				fld := g.Pick([]string{"Hashes", "Identifiers"})
+				at[fld] = []any{[]any{1.0, "aa"}}
+				other := Normalize(base).(M)
+				other["a"].(M)[fld] = []any{[]any{1.0, "aa"}, []any{float64(2 + g.Int(2)), ""}}
+				if g.Chance(0.5) {
+					base, other = other, base
+				}
+				ops = append(ops, M{"op": "equalNode", "n": base, "m": other, "kind": "perturbed"})
+				break
+			}
 			if g.Chance(0.12) {
 				// two different instants far from today (never-expires dates, dates before 1677), or the
 				// half second before the epoch against the epoch
@@ -550,6 +567,16 @@ func eqGen(g *G, tier string) []M {
 				ops = append(ops, M{"op": "equalNode", "n": base, "m": other, "kind": "perturbed"})
 				break
 			}
+			if g.Chance(0.15) {
+				// both nodes carry the same date that protobuf calls invalid (nanos out of range, past
+				// year 9999): every other attribute still counts
+				at, _ := base["a"].(M)
+				if at == nil {
+					at = M{}
+					base["a"] = at
+				}
+				at[g.Pick([]string{"ReleaseDate", "BuildDate", "ValidUntilDate"})] = [][]any{{1700080498.0, 1500000000.0}, {1700080498.0, -5.0}, {316582063200.0, 0.0}}[g.Int(3)]
+			}
 			p, _ := g.perturb(base)
 			ops = append(ops, M{"op": "equalNode", "n": base, "m": p, "kind": "perturbed"})
 		case 2:
@@ -572,7 +599,7 @@ func eqGen(g *G, tier string) []M {
 		case 3:
 			ops = append(ops, M{"op": "equalNode", "n": base, "m": g.Node(asStr(base["id"]), 0.3), "kind": "random"})
 		case 4:
-			e := M{"ty": float64(EdgeTypes[g.Int(6)]), "src": g.Pick(idPoolAll), "tos": []any{}}
+			e := M{"ty": float64(g.Pick2([]int{5, 10, 0, 1, 44, 77, 45, 46, 1000, -1})), "src": g.Pick(idPoolAll), "tos": []any{}}
 			for k := 0; k < g.Int(4); k++ {
 				e["tos"] = append(e["tos"].([]any), g.Pick(idPoolAll))
 			}
@@ -592,7 +619,8 @@ func eqGen(g *G, tier string) []M {
 			case 1:
 				f["tos"] = append(asList(f["tos"]), "q")
 			case 2:
-				f["ty"] = float64(EdgeTypes[g.Int(6)])
+				// another type: a named one, or another number without a name
+				f["ty"] = float64(g.Pick2([]int{5, 10, 0, 1, 44, 77, 45, 46, 1000, -1}))
 			}
 			if g.Chance(0.3) {
 				ops = append(ops, M{"op": "flatEdge", "e": e})
@@ -1064,6 +1092,11 @@ func oracleEq(op M, res any, exec func(M) any) []Finding {
 			if !attrEqual(f, attrOf(n, f.GoName), attrOf(m, f.GoName)) {
 				differing++
 			}
+		}
+		// "diffing with an equal node reports no difference": the two notions of sameness agree, up
+		// to the recorded collisions of the flattened string
+		if eq, ok := exec(M{"op": "equalNode", "n": n, "m": m}).(bool); ok && eq && differing > 0 && !FormatCollision(M{"op": "equalNode", "n": n, "m": m}) && !SeparatorRisk(M{"op": "equalNode", "n": n, "m": m}) {
+			add("C14", "the nodes compare equal, yet %d attribute(s) differ and diff reports %s", differing, js(res))
 		}
 		if differing == 0 && !Equal(res, "nil") {
 			add("C14", "diff of nodes whose attributes agree reports a difference: %s", js(res))
